@@ -51,7 +51,59 @@ def run(ctx):
         else:
             from vf import CheckBroken
             raise CheckBroken("trace validation failed to run:\n" + tv.out[-3000:])
+    # 4. code -> spec on the repository's own tests: built with -tags verif every app.App (including the
+    #    per-space child containers of commonspace) records its component calls; each recorded life cycle
+    #    must be a behaviour of AppContainer and satisfy every invariant.
+    repo_traces(ctx, thorough)
     ctx.assume("components' Init/Run/Close are the only observable effects; timing statistics are not modelled")
+
+
+def repo_traces(ctx, thorough):
+    import subprocess, re
+    from vf import go_env, CheckBroken
+    pkgs = ["./app/", "./nodeconf/...", "./acl/..."]
+    if thorough:
+        pkgs += ["./commonspace/", "./commonspace/sync/...", "./net/..."]
+    trace = os.path.join(ctx.scratch, "repo-app-trace.ndjson")
+    env = go_env()
+    env["VERIF_APP_TRACE"] = trace
+    p = subprocess.run(["go", "test", "-tags", "verif", "-vet=off", "-count=1", "-timeout", "20m"] + pkgs, cwd=ctx.repo, env=env,
+                       stdout=subprocess.PIPE, stderr=subprocess.STDOUT, text=True, errors="replace", timeout=1500)
+    if "[build failed]" in p.stdout or "[setup failed]" in p.stdout:
+        raise CheckBroken("repository tests do not build with -tags verif:\n" + p.stdout[-2000:])
+    # a failing (timing-sensitive) repository test is not this check's business; only the recorded traces are
+    if not os.path.exists(trace):
+        raise CheckBroken("no container trace recorded (app hooks missing in the tree under test?)\n" + p.stdout[-1500:])
+    lines = open(trace).read().splitlines()
+    runs = sum(1 for l in lines if '"ev":"Config"' in l)
+    maxn = 1
+    for l in lines:
+        if '"ev":"Config"' in l:
+            maxn = max(maxn, l.count('"kind":') - 1)
+    if runs == 0:
+        raise CheckBroken("empty container trace")
+    cfg = open(os.path.join(ctx.scratch, "..", "x"), "w") if False else None
+    cfgtxt = open(os.path.join(os.path.dirname(os.path.dirname(os.path.abspath(__file__))), "spec", "app", "AppContainerTrace.cfg")).read()
+    cfgtxt = re.sub(r"MaxN = \d+", "MaxN = %d" % max(maxn, 8), cfgtxt)
+    tv = ctx.tlc("app", "AppContainerTrace", "AppContainerTrace_repo.cfg", workers=1, env={"VERIF_TRACE": trace},
+                 files={"AppContainerTrace_repo.cfg": cfgtxt}, timeout=900, count=False, name="trace-validation-repo-tests")
+    ctx.cov["repo_test_container_runs_validated"] = runs
+    ctx.cov["repo_test_trace_events_validated"] = len(lines)
+    ctx.cov["traces_validated_against_impl"] += runs
+    if tv.timed_out:
+        raise CheckBroken("trace validation of repository test traces timed out")
+    if tv.error == "invariant":
+        ctx.violation("repo-trace-invariant-" + str(tv.error_name),
+                      "a container life cycle recorded from the repository's own tests violates %s" % tv.error_name,
+                      {"trace_tail": [s for _, s in tv.trace[-3:]]})
+    elif not tv.ok:
+        m = re.search(r'TRACE-REJECTED-AT-LINE", (\d+)', tv.out)
+        if m:
+            line = int(m.group(1))
+            ctx.violation("repo-trace-rejected", "container life cycle recorded from the repository's tests is not a behaviour of AppContainer at event %d: %s"
+                          % (line, lines[line - 1] if 0 < line <= len(lines) else "?"), {"events": lines[max(0, line - 40):line]})
+        else:
+            raise CheckBroken("trace validation of repository test traces failed to run:\n" + tv.out[-3000:])
 
 
 def ctx_broken(msg):
